@@ -35,6 +35,15 @@ CHECKS = {
     "C12": ("5/C12", "configuration-differential PBT over storage x memory-manager x deletion policies",
             "One random history executed under 12 (quick, covering) / 36 (thorough) policy combinations: every run must match the model pointwise and pass the structural audit, and the handle-free canonical forms and node counts of all produced edges must be identical across runs.",
             "canonical form is structure-only for EV* (the library compares float edge values with a 1e-6 tolerance)"),
+    "C08": ("5/C08", "PBT against an explicit BFS on the explicit transition graph; cross-algorithm edge identity",
+            "Random event-built relations (every reduction rule) and initial sets (boolean / MT-int distance / EV+ distance); every offered algorithm, forward and backward, repeated calls in the same forests; results equal the BFS reachable set / shortest distances pointwise and different algorithms give the identical edge.",
+            "explicit graph + BFS in the harness; MT-int 'unreachable' = any negative value; SATUR with non-identity relation forests is a recorded known finding and excluded by construction"),
+    "C09": ("5/C09", "PBT against the explicit neighbour / sum-of-products definition",
+            "Pre/post images of boolean and distance-valued sets under relations of every reduction rule, and VM/MV products of int/real vectors and matrices, compared pointwise with the explicit definition.",
+            "explicit definition in the harness; tolerance for reals scaled by the summed magnitudes"),
+    "C20": ("5/C20", "PBT: partitioned saturation vs explicit closure under the union, and vs monolithic reachability (edge identity)",
+            "1-8 random events fed to SATURATION_FORWARD by events and by levels with every splitting option, compared with the explicit closure under the union of the events and with the monolithic result in the same forest.",
+            "explicit closure in the harness; identity-reduced relation forest (what the operation supports); forward direction"),
     "C10": ("5/C10", "PBT, conversion model + there-and-back identity",
             "Random functions copied between every pair of same-shape forest kinds; target compared pointwise with the converted source table; lossless round trips must give the identical edge.",
             "documented scalar conversions; EV+ infinity into non-EV+ targets is UNSPEC"),
